@@ -773,4 +773,34 @@ theorem ls_break_tested (m : Model) (hA : 0 < m.A) (τ : Rat) (Γ : List Vec) (h
         rw [bestBackupAt_value m hA τ Γ hΓ x] at this
         linarith
 
+
+/-! ## the new hypotheses are satisfiable -/
+
+/-- test on literals: the example model's 2-step lookahead tree from (1/4, 3/4) is skip-free at the library tolerance, and the repaired
+    RTBSS with the (valid) bound maxR = 1 returns the expectimax value there -/
+example : skipFreeB exM AITB.Gen.equalToleranceSmall 2 #[1/4, 3/4] = true ∧
+    (rtSampleC ⟨true, true⟩ exM AITB.Gen.equalToleranceSmall 1 2 #[1/4, 3/4]).2 = expectimax exM 2 #[1/4, 3/4] := by
+  constructor <;> decide +kernel
+
+/-- test on literals: the repaired RTBSS on the all-negative counterexample of round 1, at the library tolerance -/
+example : skipFreeB cxNeg AITB.Gen.equalToleranceSmall 3 #[1] = true ∧
+    rtSampleC ⟨true, true⟩ cxNeg AITB.Gen.equalToleranceSmall (-1) 3 #[1] = (0, -7/4) := by
+  constructor <;> decide +kernel
+
+/-- `VertexCover` is satisfiable: one state, one plane, the single corner -/
+example : VertexCover 1 [#[1]] [#[1]] := by
+  intro b hb
+  refine ⟨#[1], [(1, #[1])], by simp, by simp, by simp, ?_, ?_⟩
+  · intro p hp; simp at hp; subst hp; exact ⟨by simp, by simp [env, lmax]⟩
+  · intro s hs
+    have hs0 : s = 0 := by omega
+    subst hs0
+    have h1 : b.get 0 = 1 := by have := hb.2; simpa [sumTo] using this
+    rw [h1]; unfold combo; rw [mkVec_get _ (by omega)]; simp [Vec.get]
+
+/-- the Witness loop on a one-observation, one-projection instance terminates with the complete set (test on literals) -/
+example : (wLoop 1 1 (fun _ => [#[2]]) (fun U _ => if U.isEmpty then some #[1] else none) (fun _ => [0]) 3 (wInit 1)).agenda = [] ∧
+    (wLoop 1 1 (fun _ => [#[2]]) (fun U _ => if U.isEmpty then some #[1] else none) (fun _ => [0]) 3 (wInit 1)).U = [[0]] := by
+  constructor <;> decide +kernel
+
 end AITB.POMDP
